@@ -355,7 +355,7 @@ def r4(chk):
     chk.exhaustive = True
     # monotonicity of B in the MVR side
     ba = chk.fn(REL, "Assertion.overstatement_assorter")
-    code_b, _ = spec.term(ba)
+    code_b, _ = spec.term(ba, inline={"self.make_overstatement": chk.fn(REL, "Assertion.make_overstatement")})
     if not isinstance(code_b, E):
         raise AnalysisError("overstatement_assorter is not a single return")
     om = [a for a in code_b.e.atoms(sp.core.function.AppliedUndef) if "overstatement" in a.func.__name__]
